@@ -34,6 +34,10 @@ Definition zident (n : bytes) : ident := {| id_pos := 0; id_end := 0; id_name :=
 Definition unsigned (v : bytes) : bool := match v with [] => false | _ => negb (first_byte_is_sign v) end.
 Definition sign_tok (c : byte) : ptok := if beq c x2b then tk "+" else tk "-".
 
+(* the further components of a path: . b . c *)
+Fixpoint path_tail (r : list ident) : toks :=
+  match r with [] => [] | j :: r' => tk "." :: t_ident (id_name j) :: path_tail r' end.
+
 (* ---------- spelling: no parenthesis is ever added; ParenExpr nodes spell their own ---------- *)
 Fixpoint spell (e : expr) : toks :=
   match e with
@@ -61,7 +65,14 @@ Fixpoint spell (e : expr) : toks :=
   | EIn neg l (CValues _ _ (e1 :: es)) =>
       spell l ++ (if neg then [tk "NOT"] else []) ++ tk "IN" :: tk "(" :: spell e1 ++
       (fix go (r : list expr) : toks := match r with [] => [] | x :: r' => tk "," :: spell x ++ go r' end) es ++ [tk ")"]
-  | _ => []            (* outside the part of the fragment covered by the round-trip theorem *)
+  | EPath (i :: r) => t_ident (id_name i) :: path_tail r
+  | ESelector x i => spell x ++ [tk "."; t_ident (id_name i)]
+  | EIndex _ x (SExprArg ix) => spell x ++ tk "[" :: spell ix ++ [tk "]"]
+  | EIndex _ x (SKeyword _ _ kw ix) => spell x ++ tk "[" :: t_ident kw :: tk "(" :: spell ix ++ [tk ")"; tk "]"]
+  | ETuple _ _ (e1 :: e2 :: es) =>
+      tk "(" :: spell e1 ++ tk "," :: spell e2 ++
+      (fix go (r : list expr) : toks := match r with [] => [] | x :: r' => tk "," :: spell x ++ go r' end) es ++ [tk ")"]
+  | _ => []            (* ill-formed: empty path, empty value list, tuple of fewer than two elements *)
   end.
 
 (* identifiers that parseLit treats specially when followed by "(" or a string are excluded by the follow condition;
@@ -83,6 +94,16 @@ Inductive atom : expr -> Prop :=
 (* parseUnary folds + / - into a numeric literal that does not already start with a sign *)
 Definition is_unsigned_number (e : expr) : bool :=
   match e with EInt _ _ _ v | EFloat _ _ v => negb (first_byte_is_sign v) | _ => false end.
+
+(* a subscript expression must not begin with one of the four position keywords (as an identifier, quoted or not, in any
+   case): the parser then insists on the keyword form *)
+Definition subscript_word (t : ptok) : bool :=
+  is_ident_ci t "OFFSET" || is_ident_ci t "ORDINAL" || is_ident_ci t "SAFE_OFFSET" || is_ident_ci t "SAFE_ORDINAL".
+Definition free_subscript (e : expr) : bool := match spell e with t :: _ => negb (subscript_word t) | [] => true end.
+Definition position_keyword (kw : bytes) : Prop :=
+  kw = bs "OFFSET" \/ kw = bs "ORDINAL" \/ kw = bs "SAFE_OFFSET" \/ kw = bs "SAFE_ORDINAL".
+(* a field access on a name extends the path instead *)
+Definition pathlike (e : expr) : bool := match e with EIdent _ | EPath _ => true | _ => false end.
 
 (* [can n e]: e is a tree the table allows at level n without any parenthesis (cumulative in n) *)
 Inductive can : nat -> expr -> Prop :=
@@ -106,7 +127,14 @@ Inductive can : nat -> expr -> Prop :=
 | CIsBool neg l v : can 8 l -> can 9 (EIsBool 0 neg l v)
 | CBetween neg l s x : can 8 l -> can 8 s -> can 8 x -> can 9 (EBetween neg l s x)
 | CInUnnest neg l x : can 8 l -> can 12 x -> can 9 (EIn neg l (CUnnest 0 0 x))
-| CInValues neg l e1 es : can 8 l -> can 12 e1 -> Forall (can 12) es -> can 9 (EIn neg l (CValues 0 0 (e1 :: es))).
+| CInValues neg l e1 es : can 8 l -> can 12 e1 -> Forall (can 12) es -> can 9 (EIn neg l (CValues 0 0 (e1 :: es)))
+(* level 1: field access and subscripts, left-associative; a dotted name is one Path node *)
+| CPath n1 n2 ns : plain_name n1 = true -> can 1 (EPath (zident n1 :: zident n2 :: map zident ns))
+| CSelector x n : can 1 x -> pathlike x = false -> can 1 (ESelector x (zident n))
+| CIndex x ix : can 1 x -> can 12 ix -> free_subscript ix = true -> can 1 (EIndex 0 x (SExprArg ix))
+| CIndexKw x kw ix : can 1 x -> can 12 ix -> position_keyword kw -> can 1 (EIndex 0 x (SKeyword 0 0 kw ix))
+(* ( e1, e2, ... ) with at least two elements is a tuple *)
+| CTuple e1 e2 es : can 12 e1 -> can 12 e2 -> Forall (can 12) es -> can 0 (ETuple 0 0 (e1 :: e2 :: es)).
 
 (* the tokens of the further elements of a list: , e2 , e3 ... *)
 Fixpoint spell_more (r : list expr) : toks := match r with [] => [] | x :: r' => tk "," :: spell x ++ spell_more r' end.
@@ -131,8 +159,19 @@ Section CanInd.
   Hypothesis HInUnnest : forall neg l x, can 8 l -> P 8%nat l -> can 12 x -> P 12%nat x -> P 9%nat (EIn neg l (CUnnest 0 0 x)).
   Hypothesis HInValues : forall neg l e1 es, can 8 l -> P 8%nat l -> can 12 e1 -> P 12%nat e1 -> Forall (can 12) es -> Forall (P 12%nat) es ->
                                              P 9%nat (EIn neg l (CValues 0 0 (e1 :: es))).
+  Hypothesis HPath : forall n1 n2 ns, plain_name n1 = true -> P 1%nat (EPath (zident n1 :: zident n2 :: map zident ns)).
+  Hypothesis HSelector : forall x n, can 1 x -> P 1%nat x -> pathlike x = false -> P 1%nat (ESelector x (zident n)).
+  Hypothesis HIndex : forall x ix, can 1 x -> P 1%nat x -> can 12 ix -> P 12%nat ix -> free_subscript ix = true -> P 1%nat (EIndex 0 x (SExprArg ix)).
+  Hypothesis HIndexKw : forall x kw ix, can 1 x -> P 1%nat x -> can 12 ix -> P 12%nat ix -> position_keyword kw -> P 1%nat (EIndex 0 x (SKeyword 0 0 kw ix)).
+  Hypothesis HTuple : forall e1 e2 es, can 12 e1 -> P 12%nat e1 -> can 12 e2 -> P 12%nat e2 -> Forall (can 12) es -> Forall (P 12%nat) es ->
+                                       P 0%nat (ETuple 0 0 (e1 :: e2 :: es)).
 
   Fixpoint can_ind' n e (c : can n e) {struct c} : P n e :=
+    let all := (fix go (es : list expr) (f : Forall (can 12) es) {struct f} : Forall (P 12%nat) es :=
+                  match f in Forall _ es return Forall (P 12%nat) es with
+                  | Forall_nil _ => Forall_nil _
+                  | @Forall_cons _ _ x l hx ht => Forall_cons x (can_ind' _ x hx) (go l ht)
+                  end) in
     match c in can n e return P n e with
     | CUp n m e h l => HUp n m e h (can_ind' n e h) l
     | CAtom e a => HAtom e a
@@ -148,11 +187,11 @@ Section CanInd.
     | CBetween neg l s x hl hs hx => HBetween neg l s x hl (can_ind' _ l hl) hs (can_ind' _ s hs) hx (can_ind' _ x hx)
     | CInUnnest neg l x hl hx => HInUnnest neg l x hl (can_ind' _ l hl) hx (can_ind' _ x hx)
     | CInValues neg l e1 es hl h1 hes =>
-        HInValues neg l e1 es hl (can_ind' _ l hl) h1 (can_ind' _ e1 h1) hes
-          ((fix go (es : list expr) (f : Forall (can 12) es) {struct f} : Forall (P 12%nat) es :=
-              match f in Forall _ es return Forall (P 12%nat) es with
-              | Forall_nil _ => Forall_nil _
-              | @Forall_cons _ _ x l hx ht => Forall_cons x (can_ind' _ x hx) (go l ht)
-              end) es hes)
+        HInValues neg l e1 es hl (can_ind' _ l hl) h1 (can_ind' _ e1 h1) hes (all es hes)
+    | CPath n1 n2 ns hp => HPath n1 n2 ns hp
+    | CSelector x n hx hp => HSelector x n hx (can_ind' _ x hx) hp
+    | CIndex x ix hx hi hf => HIndex x ix hx (can_ind' _ x hx) hi (can_ind' _ ix hi) hf
+    | CIndexKw x kw ix hx hi hk => HIndexKw x kw ix hx (can_ind' _ x hx) hi (can_ind' _ ix hi) hk
+    | CTuple e1 e2 es h1 h2 hes => HTuple e1 e2 es h1 (can_ind' _ e1 h1) h2 (can_ind' _ e2 h2) hes (all es hes)
     end.
 End CanInd.
